@@ -7,7 +7,7 @@ import zlib
 
 from engine import gen_states, pool_map
 from props.coords_common import segs_of, cigar_for, nid
-from readers import join_lines, gaf_record, line_at, load_pickle, read_text, run_cli, write_text
+from readers import join_lines, gaf_record, line_at, load_pickle, read_text, run_cli, write_text, workdir
 
 
 def gfa_text(segs, links):
@@ -102,7 +102,7 @@ def run_session(job):
 
     _rd.CASE = str(sid)
     rnd = random.Random(seed)
-    d = tempfile.mkdtemp(prefix="view_")
+    d = workdir("view_", sid)
     bgzf = storage == "bgzf"
     try:
         segs = segs_of(st["ref"], [tuple(h) for h in st["hap"]], base=opts.get("hapbase", 1))
